@@ -374,6 +374,10 @@ begin
               and effective_date <= _effective_date
             order by effective_date desc, seq desc
             limit 1;
+
+            if not found then
+                _effective_post_commit_volumes = (0, 0)::volumes;
+            end if;
         end if;
     end if;
 
